@@ -27,6 +27,7 @@ type HOpts struct {
 	Types     []byte // restrict column types (nil = all stream types)
 	BlobLens  []int  // preferred lengths for blob values (sizes around the transport buffer)
 	Switch    int    // how files end: 0 = rotation or (1 in 3) restart, 1 = always rotation, 2 = always restart
+	ZeroBias  int    // > 0: one value in ZeroBias is the type's all-zero value (temporal types, YEAR), and half of the fractional temporal columns have 0 digits
 }
 
 // DefaultHOpts gives moderate sizes.
@@ -94,6 +95,9 @@ func (b *Builder) RandTable(id uint64, db, name string, ncols int) *hist.Table {
 			}
 		}
 		c := hist.Column{Name: fmt.Sprintf("c%d_%d", i, r.Intn(100)), Type: ty, Meta: RandMeta(r, ty, b.O.Wide), Nullable: r.Chance(2, 3)}
+		if b.O.ZeroBias > 0 && (ty == ev.TTimestamp2 || ty == ev.TDateTime2 || ty == ev.TTime2) && r.Bool() {
+			c.Meta = 0
+		}
 		if IsInt(ty) {
 			c.Unsigned = r.Bool()
 		}
@@ -136,6 +140,8 @@ func (b *Builder) Image(t *hist.Table, id uint64) []hist.Value {
 			n := b.O.BlobLens[r.Intn(len(b.O.BlobLens))]
 			data := r.Bytes(n)
 			vals[i] = hist.Value{Enc: append(lenPrefix(n, int(c.Meta)), data...), Text: data}
+		} else if z, ok := ZeroValue(c, b.O.Loc); ok && b.O.ZeroBias > 0 && r.Chance(1, b.O.ZeroBias) {
+			vals[i] = z
 		} else {
 			vals[i] = RandValue(r, c, b.O.Loc)
 		}
